@@ -105,7 +105,7 @@ def run_job(job):
                     dpath = os.path.join(wl.ctl, f"decisions_in_{wl.n}.txt")
                     with open(dpath, "w") as fh:
                         fh.write("\n".join(str(x) for x in sc["decisions"]) + "\n")
-                    plan = Plan(sc["pseed"], "replay", faults=faults, decisions_in=dpath)
+                    plan = Plan(sc["pseed"], "replay", faults=faults, decisions_in=dpath, base_strategy=sc["strategy"])
                 env_extra = {"MAKEFLAGS": makeflags, "CARGO_MAKEFLAGS": None}
                 syslog = os.path.join(wl.ctl, f"r{wl.n}.syslog")
                 if sc.get("sysfault"):
